@@ -110,7 +110,12 @@ def run(chk: core.Check, pid: str, backend: str | None = None, quick_models: int
     keys = sorted(uniq)
     if len(keys) > cap:
         import random
-        keys = random.Random(chk.seed).sample(keys, cap)
+        rnd = random.Random(chk.seed)
+        # models without parameters are rare among the generated ones (few dependency choices): a fixed share of them
+        rare = [k for k in keys if "parameters(" not in k]
+        rare = rnd.sample(rare, min(len(rare), max(8, cap // 16)))
+        rest = [k for k in keys if k not in set(rare)]
+        keys = sorted(rare + rnd.sample(rest, min(len(rest), cap - len(rare))))
     recs = [uniq[k] for k in keys]
     workdir = str(tlc.scratch_root())
     stats, bad = modelcase.replay_model_cases(recs, backend, chk.nproc, remove_unused=prof["ru"], workdir=workdir,
